@@ -2,6 +2,7 @@
 // frame: after it returns the harness overwrites the dead stack region with pointers to trap
 // functions, so a stale read of the by-value callable parameter cannot succeed "by luck".
 #include <optional>
+#include <system_error>
 #include <thread>
 
 #include <tulz/threading/Thread.h>
@@ -99,11 +100,12 @@ void fn_payload() {
 
 int g_rounds = 1;   // > 1: the same Thread object is started again after it has been joined
 int g_round = 0;
+bool g_reuse = false;   // start() on the existing Thread object (a later round, or the retry after a start() that threw)
 
 template <class C>
 void start_with(std::optional<tulz::Thread> &ot, C callable, int &a, int &b) {
     ev("StartCall");
-    if (g_round > 0) {
+    if (g_reuse) {
         if (g_args == 0) ot->start(callable);
         else if (g_args == 1) ot->start(callable, a);
         else ot->start(callable, a, b);
@@ -154,9 +156,12 @@ void scenario() {
   for (g_round = 0; g_round < g_rounds; ++g_round) {
     a = b = 0;
     vs::yield("begin");
+   for (bool retry = false;; retry = true) {
+    g_reuse = (g_round > 0 || retry) && ot.has_value();
+    try {
     if (g_kind == 0) {
         ev("StartCall");
-        if (g_round > 0) {
+        if (g_reuse) {
             if (g_args == 0) ot->start(&fn0);
             else if (g_args == 1) ot->start(&fn1, a);
             else ot->start(&fn2, a, b);
@@ -182,7 +187,7 @@ void scenario() {
         start_with(ot, l, a, b);
     } else {
         ev("StartCall");
-        if (g_round > 0) ot->start(new R());
+        if (g_reuse) ot->start(new R());
         else if (g_form == 1) ot.emplace(new R());
         else {
             ot.emplace();
@@ -192,6 +197,13 @@ void scenario() {
         g_thread = &*ot;
         ev("StartRet");
     }
+    break;
+    } catch (const std::system_error &) {
+        // failcreate=1: the thread could not be created, so no callable has run and none has returned
+        ev("StartThrew");
+        if (ot.has_value() && ot->isFinished()) ev("FinSeen");
+    }
+   }
     if (g_round > 0) g_fin_logged = false;   // start() has returned: from here on isFinished() speaks about the new round
     tulz::Thread &t = *ot;
     scribble(trap);
@@ -253,6 +265,7 @@ void run_exec(const Execution &ex) {
     if (rd_access_yield) rd_access_yield((int) ex.cfg.num("accy", 0), (unsigned) ex.cfg.num("seed", 1));
     Ctl ctl;
     ctl.max_steps = ex.cfg.num("accy", 0) ? 40000 : 2000;
+    ctl.fail_create_nth = (int) ex.cfg.num("failcreate", 0);
     if (ex.cfg.str("mode", "script") == "script") {
         ctl.mode = vs::BaseController::SCRIPT;
         vs::ScriptStep s0;
